@@ -82,6 +82,22 @@ def s9_every_dir_every_time(chk: Check, proj: Project) -> None:
                f"`for .. in {short(lp.iter, 40)}` visits every entry" if not brk else
                f"`break` ends `for .. in {short(lp.iter, 40)}` at the first hit: an app that has two of the configured directory names (components/ and widgets/) contributes only the first, the files of the other are exposed by neither list() nor find()")
     chk.floor("S9-loops", n, 2)
+    # an explicitly EMPTY COMPONENTS.dirs means "no directories": the legacy fallback to STATICFILES_DIRS is taken only when the
+    # setting is ABSENT (None)
+    raw = [t.id for st in stmts(lf) if isinstance(st, ast.Assign) and ("dirs" in norm(st.value).lower()) and ("getattr" in norm(st.value) or "._settings" in norm(st.value) or "raw" in norm(st.targets[0]).lower()) for t in st.targets if isinstance(t, ast.Name) and "raw" in t.id.lower()]
+    if raw:
+        rv_ = raw[0]
+        truthy = [x for x in ast.walk(lf) if (isinstance(x, ast.UnaryOp) and isinstance(x.op, ast.Not) and norm(x.operand) == rv_) or (isinstance(x, (ast.If, ast.IfExp, ast.While)) and norm(x.test) == rv_) or (isinstance(x, ast.BoolOp) and any(norm(v_) == rv_ for v_ in x.values))]
+        chk.ob("S9", "util.loader:get_component_dirs:dirs-set-means-not-None", lm.loc(truthy[0]) if truthy else lm.loc(lf), not truthy,
+               f"whether COMPONENTS.dirs was set is judged by `{rv_} is not None`" if not truthy else
+               f"`{short(truthy[0])}` judges by truthiness whether COMPONENTS.dirs was set: an explicitly empty list (`dirs=[]`, i.e. no component directories) counts as 'not set', every STATICFILES_DIRS entry becomes a component directory and find() / list() expose files outside the configured directories")
+    from ..state import accesses as _acc, inventory as _inv
+
+    fmod = proj.mod("finders")
+    tables = [a for k_, g_ in _inv(proj).items() if g_.mod is fmod for a in _acc(proj, g_) if a.kind in ("insert", "rebind", "elem-insert") and a.func is not None and not (g_.name == "searched_locations")]
+    chk.ob("S9", "finders:no-table-of-compiled-patterns", tables[0].loc if tables else fmod.loc(fmod.tree), not tables,
+           "the finder keeps no module-level table: the allow / forbid patterns are read from the settings for every file" if not tables else
+           f"`{short(tables[0].stmt())}` keeps compiled patterns in module-level `{tables[0].g.name}` under a key that forgets whether an entry was a suffix or a regex, and its flags: a later configuration with the same pattern TEXT is judged with the earlier one's patterns (data.json exposed under allowed=['.js'] after re.compile('.js') was used)")
     fm, ff = proj.func("finders", "ComponentsFileSystemFinder.find")
     chk.analysed(fkey(fm, ff))
     skips = [x for x in ast.walk(ff) if isinstance(x, (ast.Continue, ast.Break, ast.Return)) and any("searched_locations" in t for t, _p in cond_atoms(x))]
